@@ -135,7 +135,12 @@ def synth(n: str) -> str:
     return f"{m.group(1)}#{m.group(2)}" if m else n
 
 
-def canon_decl(d: SdsDecl, name_map: dict[str, str]) -> tuple:
+def canon_decl(d: SdsDecl, name_map: dict[str, str], norm: bool = False, depth: int = 0) -> tuple:
+    """norm=True: type-parameter NAMES are replaced by their position (type parameters carry no Python-name annotation -
+    a recorded finding), so that everything else about type parameters (how many, on which declaration, variance, bound,
+    where they are used) is still compared."""
+    if norm:
+        name_map = {**name_map, **{tp.name: f"#{depth}.{k}" for k, tp in enumerate(d.type_params)}}
     return (
         d.kind, d.py_name, d.static,
         tuple((tp.variance, name_map.get(tp.name, tp.name), type_str(tp.bound, name_map)) for tp in d.type_params),
@@ -144,12 +149,12 @@ def canon_decl(d: SdsDecl, name_map: dict[str, str]) -> tuple:
         tuple(type_str(p, name_map) for p in d.parents),
         type_str(d.type, name_map) if d.kind == "attr" else None,
         tuple(sorted(d.todos)),
-        tuple(canon_decl(m, name_map) for m in d.members),
+        tuple(canon_decl(m, name_map, norm, depth + 1) for m in d.members),
     )  # fmt: skip
 
 
-def canon_module(m: SdsModule, name_map: dict[str, str]) -> tuple:
-    return (m.py_module, len(m.imports), tuple(canon_decl(d, name_map) for d in m.decls))
+def canon_module(m: SdsModule, name_map: dict[str, str], norm: bool = False) -> tuple:
+    return (m.py_module, len(m.imports), tuple(canon_decl(d, name_map, norm) for d in m.decls))
 
 
 def name_map_of(mods: list[SdsModule]) -> dict[str, str]:
@@ -266,6 +271,12 @@ def run(rep: Report, tier: str, seed: int) -> None:
                 if a == b:
                     rep.ok("recovered-equal")
                     continue
+                # differences that vanish when type-parameter names are replaced by positions are name-only differences
+                an, bn = canon_module(moff[pm], umap_off, True), canon_module(mon[pm], umap_on, True)
+                if an == bn:
+                    viol("recovered-equal", "type_params", {"module": pm, "off": str(a)[:500], "on": str(b)[:500]})
+                    continue
+                a, b = an, bn
                 # locate the first difference for the signature
                 where = "module"
                 da, db = a[2], b[2]
@@ -279,6 +290,8 @@ def run(rep: Report, tier: str, seed: int) -> None:
                             fields = ["kind", "py_name", "static", "type_params", "params", "results", "parents", "type", "todos", "members"]
                             where = next((fields[i] for i in range(len(fields)) if x1[i] != x2[i]), "?")
                             break
+                if where == "type_params":
+                    where = "type_params-structure"  # names were normalised away above
                 viol("recovered-equal", where, {"module": pm, "off": str(a)[:500], "on": str(b)[:500]})
 
     def on_group(us, opts: Opts, obs: Obs, files) -> None:
